@@ -3,8 +3,11 @@ package main
 import (
 	"golang.org/x/tools/go/ssa"
 	"golang.org/x/tools/go/ssa/ssautil"
+	"os"
 )
 
 func ssautilAllFunctions(prog *ssa.Program) map[*ssa.Function]bool {
 	return ssautil.AllFunctions(prog)
 }
+
+var forkDebug = os.Getenv("VERIF_FORKPOS") != ""
